@@ -121,11 +121,28 @@ func checkArith(c arithCase) string {
 	if got.Cmp(want) != 0 {
 		return fmt.Sprintf("%s = %s, want exactly %s", f, obs.Show(arr[0]), ref.DecString(want))
 	}
-	if c.Ops[len(c.Ops)-1] == "%" && want.Sign() == 0 {
-		return ""
+	// the same computation with every intermediate value held in a local: a number keeps all its digits
+	// when it is bound to a `$` name and read back
+	arithLocalCount++
+	if arithLocalCount%3 == 0 {
+		lf := "($t0 = " + c.Vals[0].lit(c.Style)
+		for i, op := range c.Ops {
+			lf += fmt.Sprintf(", $t%d = $t%d %s %s", i+1, i, op, c.Vals[i+1].lit(c.Style+i+1))
+		}
+		lf = "[" + lf + fmt.Sprintf(", $t%d)]", len(c.Ops))
+		lout := obs.EvalText(lf, map[string]interface{}{})
+		larr, isArr := lout.Val.([]interface{})
+		if lout.Panic != nil || lout.Err != nil || !isArr || len(larr) != 1 {
+			return fmt.Sprintf("%s -> %s", lf, lout)
+		}
+		if lgot, isNum := obs.Rat(larr[0]); !isNum || lgot.Cmp(want) != 0 {
+			return fmt.Sprintf("%s = %s, but without the locals %s = %s", lf, obs.Show(larr[0]), f, obs.Show(arr[0]))
+		}
 	}
 	return ""
 }
+
+var arithLocalCount int
 
 func arithNontrivial(c arithCase) bool {
 	// the exact result of some step needed rounding, or alignment spans >= 20 digits
